@@ -12,9 +12,9 @@ def showList (xs : List Int) : String :=
 def rangeI (n : Int) : List Int := (List.range n.toNat).map (fun (k : Nat) => (k : Int))
 
 /-- raw element k of M holds k+1, of N 1001+k, of an assignment target -1 -/
-def dM : Raw := fun k => k + 1
-def dN : Raw := fun k => 1001 + k
-def dS : Raw := fun _ => -1
+def dM : Raw := ⟨fun k => k + 1⟩
+def dN : Raw := ⟨fun k => 1001 + k⟩
+def dS : Raw := ⟨fun _ => -1⟩
 
 def rawList (m : SM) (d : Raw) : List Int := (rangeI m.rawSize).map (fun k => d (m.base + k))
 
@@ -31,6 +31,28 @@ def changes (m : SM) (d0 d1 : Raw) : String :=
 
 def rawView (m : SM) (d : Raw) : String :=
   "raw=" ++ showList (rawList m d) ++ " view=" ++ showList (m.view d)
+
+/-- the right-hand side forms of the self-referential block statements: `2.0*X`, `X`, `2.0*X + X`, `X.T()`,
+    `2.0*X + X.T()` -/
+def blockForm (f : String) (y : SM) : Option AExpr :=
+  if f = "k2" then some (.scale (.leaf y) 2)
+  else if f = "cp" then some (.leaf y)
+  else if f = "sum" then some (.add (.scale (.leaf y) 2) (.leaf y))
+  else if f = "T" then some (.leaf y.T)
+  else if f = "mixT" then some (.add (.scale (.leaf y) 2) (.leaf y.T))
+  else none
+
+/-- the right-hand side forms of the `diag_vector` statements: `2.0*w`, `w`, `2.0*w + w`,
+    `2.0*w(stride(len-1,0,-1))` -/
+def vecForm (f : String) (w : SM.Vec) : Option VExpr :=
+  if f = "k2" then some (.scale (.vec w) 2)
+  else if f = "cp" then some (.vec w)
+  else if f = "sum" then some (.add (.scale (.vec w) 2) (.vec w))
+  else if f = "rev" then some (.scale (.vec w.rev) 2)
+  else none
+
+def selfOut (m : SM) (al : Bool) (d : Raw) : String :=
+  s!"alias={if al then 1 else 0} " ++ rawView m d
 
 def parseEngine (name l u : String) : Option Engine :=
   match l.toInt?, u.toInt? with
@@ -105,6 +127,117 @@ def run (op : String) (e : Engine) (n : Int) (args : List String) : String :=
   | "exprT", [] => showList ((RExpr.add (.scale (.sm m dM) 2) (.sm m.T dN)).toDense nn)
   | "assign", [] => rawView m (m.assign (.add (.scale (.sm m dM) 2) (.sm m dN)) dS)
   | "assignT", [] => rawView m (m.assign (.add (.scale (.sm m dM) 2) (.sm m.T dN)) dS)
+  | "sinfo", [a, b] =>
+    match a.toInt?, b.toInt? with
+    | some a, some b =>
+      match m.sub a b with
+      | some x => s!"offset={x.offset} size={x.rawSize} contiguous={if x.isContiguous then 1 else 0}"
+      | none => "oob"
+    | _, _ => "bad-op"
+  | "sdiag", [a, b, k] =>
+    match a.toInt?, b.toInt?, k.toInt? with
+    | some a, some b, some k =>
+      match m.sub a b with
+      | some x =>
+        if k ≤ -x.dim ∨ k ≥ x.dim then "bad-op" else
+        match x.diag k with
+        | some v => showList ((rangeI v.len).map (fun t => dM (v.base + t * v.stride)))
+        | none => "oob"
+      | none => "oob"
+    | _, _, _ => "bad-op"
+  | "sTdiag", [a, b, k] =>
+    match a.toInt?, b.toInt?, k.toInt? with
+    | some a, some b, some k =>
+      match m.sub a b with
+      | some x =>
+        if k ≤ -x.dim ∨ k ≥ x.dim then "bad-op" else
+        match x.T.diag k with
+        | some v => showList ((rangeI v.len).map (fun t => dM (v.base + t * v.stride)))
+        | none => "oob"
+      | none => "oob"
+    | _, _, _ => "bad-op"
+  | "swrdiag", [a, b, k, t] =>
+    match a.toInt?, b.toInt?, k.toInt?, t.toInt? with
+    | some a, some b, some k, some t =>
+      match m.sub a b with
+      | some x =>
+        let len := x.dim - (if k < 0 then -k else k)
+        if k ≤ -x.dim ∨ k ≥ x.dim ∨ t < 0 ∨ t ≥ len then "bad-op" else
+        match x.diag k with
+        | some v => changes m dM (Raw.set dM (v.base + t * v.stride) 1000)
+        | none => "oob"
+      | none => "oob"
+    | _, _, _, _ => "bad-op"
+  | "swr", [a, b, md, i, j] =>
+    match a.toInt?, b.toInt?, mode? md, i.toInt?, j.toInt? with
+    | some a, some b, some act, some i, some j =>
+      match m.sub a b with
+      | some x =>
+        if i < 0 ∨ j < 0 ∨ i ≥ x.dim ∨ j ≥ x.dim then "bad-op" else
+        match x.ref act i j with
+        | some k => changes m dM (Raw.set dM k 1000)
+        | none => "oob"
+      | none => "oob"
+    | _, _, _, _, _ => "bad-op"
+  | "sT", [a, b] =>
+    match a.toInt?, b.toInt? with
+    | some a, some b =>
+      match m.sub a b with
+      | some x =>
+        "conv=" ++ showList ((RExpr.sm x.T dM).toDense x.dim.toNat) ++ " get=" ++ showList (x.T.view dM) ++
+        " convTT=" ++ showList ((RExpr.sm x.T.T dM).toDense x.dim.toNat)
+      | none => "oob"
+    | _, _ => "bad-op"
+  | "ssub", [a, b, a2, b2] =>
+    match a.toInt?, b.toInt?, a2.toInt?, b2.toInt? with
+    | some a, some b, some a2, some b2 =>
+      match m.sub a b with
+      | some x =>
+        match x.sub a2 b2 with
+        | some y =>
+          "get=" ++ showList (y.view dM) ++ " conv=" ++ showList ((RExpr.sm y dM).toDense y.dim.toNat) ++
+          " convT=" ++ showList ((RExpr.sm y.T dM).toDense y.dim.toNat)
+        | none => "oob"
+      | none => "oob"
+    | _, _, _, _ => "bad-op"
+  | "sassign", [a, b] =>
+    match a.toInt?, b.toInt? with
+    | some a, some b =>
+      match m.sub a b with
+      | some x => rawView m (x.assign (.add (.scale (.sm x dM) 2) (.sm x.T dN)) dS)
+      | none => "oob"
+    | _, _ => "bad-op"
+  | "selfsub", [a, b, c, d, f] =>
+    match a.toInt?, b.toInt?, c.toInt?, d.toInt? with
+    | some a, some b, some c, some d =>
+      match m.sub a b, m.sub c d with
+      | some x, some y =>
+        match blockForm f y with
+        | some rhs =>
+          if x.dim ≠ y.dim then "mismatch" else
+          selfOut m (rhs.isAliased x.dataBegin x.dataEnd) (x.assignExpr rhs dM)
+        | none => "bad-op"
+      | _, _ => "oob"
+    | _, _, _, _ => "bad-op"
+  | "selfT", [] =>
+    let rhs := AExpr.leaf m.T
+    selfOut m (rhs.isAliased m.dataBegin m.dataEnd) (m.assignExpr rhs dM)
+  | "selfexpr", [] =>
+    let rhs := AExpr.add (.scale (.leaf m) 2) (.leaf m)
+    selfOut m (rhs.isAliased m.dataBegin m.dataEnd) (m.assignExpr rhs dM)
+  | "selfdiag", [k, k2, f] =>
+    match k.toInt?, k2.toInt? with
+    | some k, some k2 =>
+      if k ≤ -n ∨ k ≥ n ∨ k2 ≤ -n ∨ k2 ≥ n then "bad-op" else
+      match m.diag k, m.diag k2 with
+      | some v, some w =>
+        match vecForm f w with
+        | some rhs =>
+          if v.len ≠ w.len then "mismatch" else
+          selfOut m (rhs.isAliased v.dataBegin v.dataEnd) (v.assignExpr rhs dM)
+        | none => "bad-op"
+      | _, _ => "oob"
+    | _, _ => "bad-op"
   | "dmat", [st] =>
     -- `Array<1>::diag_matrix()`: SpecialMatrix<BandEngine<ROW_MAJOR,0,0>>(data_, storage_, dimensions_[0], offset_[0]-1)
     match st.toInt? with
